@@ -229,6 +229,8 @@ type Obligation struct {
 	Size   int
 	Props  []string
 	Carved string // known-finding id whose carve-out hypothesis was used
+	Inputs []string `json:"-"` // SMT terms whose model values describe the failing input
+	SolverOutput string
 }
 
 // queries builds one SMT script per assertion of an executed function.
@@ -242,7 +244,7 @@ func (x *Exec) queries(fname string) []*Obligation {
 		case EvAssume:
 			body.WriteString("(assert " + ev.T.S + ")\n")
 		case EvAssert:
-			ob := &Obligation{Func: fname, Name: fname + "/" + ev.Name, Short: ev.Name, Pos: ev.Pos, Info: ev.Info}
+			ob := &Obligation{Func: fname, Name: fname + "/" + ev.Name, Short: ev.Name, Pos: ev.Pos, Info: ev.Info, Inputs: x.inputs}
 			if ev.T.S == "true" {
 				ob.Status = "trivial"
 			} else {
@@ -390,11 +392,37 @@ func discharge(ob *Obligation, dir string, timeout int, agree bool) {
 		ob.Status, ob.Solver = "unknown", "DISAGREEMENT "+strings.Join(notes, " ")
 	case len(satBy) > 0:
 		ob.Status, ob.Solver = "failed", strings.Join(satBy, "+")
+		ob.Model = getModel(ob, file, satBy[0], timeout)
 	case len(unsat) > 0:
 		ob.Status, ob.Solver = "proved", strings.Join(unsat, "+")+" (single)"
 	default:
 		ob.Status, ob.Solver = "unknown", strings.Join(notes, " ")
 	}
+	ob.SolverOutput = strings.Join(notes, " ")
+}
+
+// getModel asks the solver that answered sat for the values of the input terms.
+func getModel(ob *Obligation, file, solver string, timeout int) string {
+	if len(ob.Inputs) == 0 {
+		return ""
+	}
+	q := strings.Replace(ob.Query, "(check-sat)\n", "(check-sat)\n(get-value ("+strings.Join(ob.Inputs, " ")+"))\n", 1)
+	mf := strings.TrimSuffix(file, ".smt2") + ".model.smt2"
+	os.WriteFile(mf, []byte(q), 0o644)
+	for _, s := range solvers {
+		if s.name != solver {
+			continue
+		}
+		argv := s.argv(mf, timeout)
+		ctx, cancel := context.WithTimeout(context.Background(), time.Duration(timeout+2)*time.Second)
+		defer cancel()
+		out, _ := exec.CommandContext(ctx, argv[0], argv[1:]...).CombinedOutput()
+		txt := string(out)
+		if strings.HasPrefix(strings.TrimSpace(txt), "sat") {
+			return strings.TrimSpace(strings.TrimPrefix(strings.TrimSpace(txt), "sat"))
+		}
+	}
+	return ""
 }
 
 func hashStr(s string) uint32 {
